@@ -25,7 +25,7 @@ pub enum Source { App }
 
 // @extra-items-here (helpers a change newly calls are spliced in above this line)
 #[derive(Clone, Copy, Debug, PartialEq, Eq)]
-enum Kind { Open, Unknown, Inactive(u32), Unusable, Relay }
+enum Kind { Open, Unknown, Inactive(u32), Unusable, Relay(u8) }   // Relay(status): 0 unknown, 1 open, 2 inactive, 3 unusable
 
 struct Failure { obligation: &'static str, class: &'static str, input: String, detail: String }
 
@@ -34,7 +34,7 @@ fn main() {
     let max_paths: u32 = args.get(1).and_then(|s| s.parse().ok()).unwrap_or(34);
     let max_relay: u32 = args.get(2).and_then(|s| s.parse().ok()).unwrap_or(1);
     // optional third argument: one recorded input ("open=0 unknown=0 inactive=1 unusable=29 relay=0 close_order=0") to replay
-    let only: Option<Vec<u32>> = args.get(3).map(|s| s.split_whitespace().take(5).map(|kv| kv.split('=').nth(1).unwrap().parse().unwrap()).collect());
+    let only: Option<Vec<u32>> = args.get(3).map(|s| s.split_whitespace().map(|kv| kv.split('=').nth(1).unwrap().parse().unwrap()).collect());
     let base = Instant::now();
     let mut evaluations: u64 = 0;
     let mut nontrivial: u64 = 0;
@@ -42,13 +42,15 @@ fn main() {
     let mut fail_counts: HashMap<(&'static str, &'static str), u64> = HashMap::new();
     let mut samples: Vec<String> = Vec::new();
     // every population (open, unknown, inactive, unusable, relay) within the bound; inactive paths get distinct close times
-    for relay in 0..=max_relay {
+    // relay paths come in every status (a relay path must never be pruned, whatever its status)
+    for relay_status in 0..4u8 { for relay in 0..=max_relay {
+        if relay == 0 && relay_status != 0 { continue; }
         for open in 0..=max_paths {
             for unknown in 0..=(max_paths - open) {
                 for inactive in 0..=(max_paths - open - unknown) {
                     for unusable in 0..=(max_paths - open - unknown - inactive) {
                         if let Some(o) = &only {
-                            if o[..] != [open, unknown, inactive, unusable, relay] { continue; }
+                            if o[..5] != [open, unknown, inactive, unusable, relay] || (o.len() > 6 && o[6] != relay_status as u32) { continue; }
                         }
                         // two orders of close times relative to the address numbering (ascending / descending)
                         for order in 0..2u32 {
@@ -59,7 +61,10 @@ fn main() {
                             let mut add = |paths: &mut FxHashMap<transports::Addr, PathState>, kinds: &mut HashMap<transports::Addr, Kind>, a: transports::Addr, k: Kind| {
                                 let status = match k {
                                     Kind::Open => PathStatus::Open,
-                                    Kind::Unknown | Kind::Relay => PathStatus::Unknown,
+                                    Kind::Unknown | Kind::Relay(0) => PathStatus::Unknown,
+                                    Kind::Relay(1) => PathStatus::Open,
+                                    Kind::Relay(2) => PathStatus::Inactive(base + Duration::from_secs(5)),
+                                    Kind::Relay(_) => PathStatus::Unusable,
                                     Kind::Inactive(t) => PathStatus::Inactive(base + Duration::from_secs(t as u64)),
                                     Kind::Unusable => PathStatus::Unusable,
                                 };
@@ -73,11 +78,11 @@ fn main() {
                                 add(&mut paths, &mut kinds, transports::Addr::Ip(n), Kind::Inactive(t)); n += 1;
                             }
                             for _ in 0..unusable { add(&mut paths, &mut kinds, transports::Addr::Ip(n), Kind::Unusable); n += 1; }
-                            for r in 0..relay { add(&mut paths, &mut kinds, transports::Addr::Relay(r), Kind::Relay); }
+                            for r in 0..relay { add(&mut paths, &mut kinds, transports::Addr::Relay(r), Kind::Relay(relay_status)); }
                             let non_relay = open + unknown + inactive + unusable;
                             let total = non_relay + relay;
                             if non_relay >= 30 { nontrivial += 1; }
-                            let input = format!("open={open} unknown={unknown} inactive={inactive} unusable={unusable} relay={relay} close_order={order}");
+                            let input = format!("open={open} unknown={unknown} inactive={inactive} unusable={unusable} relay={relay} close_order={order} relay_status={relay_status}");
                             if samples.len() < 4 && non_relay >= 30 && inactive > 0 && unusable > 0 { samples.push(input.clone()); }
 
                             prune_non_relay_paths(&mut paths);
@@ -85,7 +90,7 @@ fn main() {
                             let kept = |k: fn(&Kind) -> bool| kinds.iter().filter(|(a, kk)| k(kk) && paths.contains_key(*a)).count() as u32;
                             let kept_open = kept(|k| matches!(k, Kind::Open));
                             let kept_unknown = kept(|k| matches!(k, Kind::Unknown));
-                            let kept_relay = kept(|k| matches!(k, Kind::Relay));
+                            let kept_relay = kept(|k| matches!(k, Kind::Relay(_)));
                             let kept_unusable = kept(|k| matches!(k, Kind::Unusable));
                             let mut kept_inactive_times: Vec<u32> = kinds.iter().filter_map(|(a, k)| match k { Kind::Inactive(t) if paths.contains_key(a) => Some(*t), _ => None }).collect();
                             kept_inactive_times.sort();
@@ -131,7 +136,7 @@ fn main() {
                 }
             }
         }
-    }
+    } }
     // JSON by hand (std only)
     let esc = |s: &str| s.replace('\\', "\\\\").replace('"', "\\\"");
     let mut out = String::new();
